@@ -71,8 +71,10 @@ BOUNDED.update({
     "C14": ["prop:alldifferent", "prop:gcc", "prop:relation"] + SIMPLE_EXACT,
     "C16": COMPLEX + ["init:small"],
     "C17": ["engine:small"],
+    "C18": ["faults:small"],
+    "C11": ["faults:reducers"],
 })
-BOUNDED_NOTE = " Bounded stand-ins (never counted as proved): the same clauses checked at run time on the real functions over exhaustively enumerated small scopes (harness/bounded.py) for the Hall-interval/graph propagators (alldifferent, gcc, scc, relation, no_sub_cycle beyond arity 4), and small random problems under every configuration against brute force for the engine-level composition."
+BOUNDED_NOTE = " Bounded stand-ins (never counted as proved): the same clauses checked at run time on the real functions over exhaustively enumerated small scopes (harness/bounded.py) for the Hall-interval/graph propagators (alldifferent, gcc, scc, no_sub_cycle beyond arity 4; relation is proved in invariant mode and keeps its suite as a cross-check), and small random problems under every configuration against brute force for the engine-level composition."
 
 claim("C01", "Chain of contracts: P3 on each compute_domains_X under contract; BC/shaving satisfy the ConsistencyAlg interface (BOUND only when every domain is a point, domains only shrink, lower levels untouched); "
       "solve_one returns exactly get_solution of a BOUND state (value = shared domain + offset) and, on a fresh solver, inside the root domains; reducers and workers pass solutions through unchanged. "
@@ -107,17 +109,19 @@ claim("C10", "shave_bound contract (stack height restored, only the probed bound
       "contract-based deductive verification (own AST->VC generator, z3)", level="other")
 claim("C11", "MultiprocessingSolver.solve/optimize verified for an ARBITRARY well-formed message sequence (= every interleaving): never reads past the stream, consumes every message, returns at the last completion marker, yields each solution exactly once, "
       "keeps the extremal objective (None iff no solution), final statistics are those of each worker's marker; sum_stats/max_stats; worker side: solve_and_queue/optimize_and_queue emit exactly one marker, last.",
-      "contract-based deductive verification with ghost message sequence and lemma library", level="proof")
+      "contract-based deductive verification with ghost message sequence and lemma library (+ bounded cross-check: every interleaving of small worker streams through the real reducers)", level="proof")
 claim("C12", "Problem.split contract: min(k, size) >= 1 parts, contiguous, non-empty, first starts at a, last ends at b (closed-form loop invariant, nonlinear), every other row / the index and offset lists of each copy equal the original's, original unchanged (deepcopy by assumed contract).",
       "contract-based deductive verification with environment handlers (deepcopy, append)", level="other")
 claim("C13", "Offset round trip (BC view = shared + offset, write-back subtracts it, get_solution, decrease_max/increase_min) and frame obligations of every function under contract; independence from constraint order, duplication, dummy constraints and "
       "sharing-vs-equality rewrites checked by the bounded engine suite.",
       "contract-based deductive verification + bounded engine suite", level="other")
-claim("C14", "P1+P2 deductively (C05); exact hull (every output bound is attained by a tuple of the input box that satisfies the relation: explicit witness tuples, unbounded arity) proved for max_leq, min_geq, affine_leq, affine_geq; "
+claim("C14", "P1+P2 deductively (C05); exact hull (every output bound is attained by a tuple of the input box that satisfies the relation: explicit witness tuples, unbounded arity) proved for "
+      "max_leq, min_geq, affine_leq, affine_geq, and, max_eq, min_eq and relation (unbounded table; each bound attained by a table row inside the input box); 'a second consecutive call changes nothing' and the uniqueness of the exact hull "
+      "follow for these from P1, P2, P5 by the meta-lemmas M-IDEM / M-EXACT-UNIQUE, proved on every run over an uninterpreted relation and arbitrary arity (nucsvc/metalemmas.py); "
       "for all 18 listed propagators exactness (hull, inconsistency iff empty, idempotence; one interval round for affine_eq via hull of its own output) by the bounded propagator suites on exhaustively enumerated small scopes.",
-      "contract-based deductive verification (witness tuples) for 4 propagators + bounded run-time contract checks", level="other")
-claim("C18", "get_message contract under an explicit environment contract: every Queue.get has a timeout; an iteration that finds the queue empty while an unfinished worker is dead leaves by raising (never loops on); the reducers track completion flags exactly.",
-      "contract-based deductive verification of a safety reformulation under an environment contract", level="other")
+      "contract-based deductive verification (witness tuples) for 8 propagators + meta-lemmas + bounded run-time contract checks", level="other")
+claim("C18", "get_message contract under an explicit environment contract: every Queue.get has a timeout; an iteration that finds the queue empty while an unfinished worker is dead leaves by raising (never loops on); the reducers track completion flags exactly. Bounded stand-in (not counted as proved): the real get_message against deterministic stand-ins for Queue and Process over every small fault script (harness/bounded_faults.py).",
+      "contract-based deductive verification of a safety reformulation under an environment contract + bounded fault scripts", level="other")
 claim("C08", "Shrink-only and frame clauses of BC and shaving (postconditions), exact set semantics of the propagation queue (add_propagators, pop_propagator), "
       "declared wake-up masks contain the needed events (get_triggers_X contracts for all 21 propagators), event masks announced by the value heuristics and recorded for backtracking cover every moved bound (C09 clauses), "
       "BC queues the watchers of every bound it moves and re-filters a propagator whose aliased views were intersected. "
